@@ -15,8 +15,16 @@ pub struct LiqRef {
 
 /// the liquidation margin ratio as the statement defines it, from pre-state queries
 pub fn ratio_liq(preq: &PreQ, margin: U, f: i128, spot_price: U, d: U, twap_ref: Option<Option<(U, i128)>>) -> Option<LiqRef> {
-    let sn = pq_field_u(preq, "pnl_spot", "position_notional")?;
-    let sp = pq_field_i(preq, "pnl_spot", "unrealized_pnl")?;
+    ratio_liq_own(preq, margin, f, spot_price, d, twap_ref, None)
+}
+
+/// `own`: (direction, |size|, open notional) of the position - with it the spot and oracle valuations are the harness's
+/// own (the vAMM's quote for the closing trade, the oracle price times the size) instead of the engine's PnL queries
+pub fn ratio_liq_own(preq: &PreQ, margin: U, f: i128, spot_price: U, d: U, twap_ref: Option<Option<(U, i128)>>, own: Option<(Dir, U, U)>) -> Option<LiqRef> {
+    let (sn, sp) = match (own, pq_u(preq, "out_whole")) {
+        (Some((dir, _, open)), Some(q)) => (q, pnl(dir, q, open)?),
+        _ => (pq_field_u(preq, "pnl_spot", "position_notional")?, pq_field_i(preq, "pnl_spot", "unrealized_pnl")?),
+    };
     // the 15-minute TWAP figures: the harness's own when it could compute them (Some(None): unbounded, the spot
     // valuation is the smaller one), else the engine's query
     let twap = match twap_ref {
@@ -34,8 +42,13 @@ pub fn ratio_liq(preq: &PreQ, margin: U, f: i128, spot_price: U, d: U, twap_ref:
             let dev = smul_div(spot_price as i128 - op as i128, d as i128, op as i128)?;
             over = dev.unsigned_abs() >= d / 10;
             if over {
-                let on = pq_field_u(preq, "pnl_oracle", "position_notional")?;
-                let opl = pq_field_i(preq, "pnl_oracle", "unrealized_pnl")?;
+                let (on, opl) = match own {
+                    Some((dir, size, open)) => {
+                        let on = mul_div(op, size, d)?;
+                        (on, pnl(dir, on, open)?)
+                    }
+                    None => (pq_field_u(preq, "pnl_oracle", "position_notional")?, pq_field_i(preq, "pnl_oracle", "unrealized_pnl")?),
+                };
                 let ro = ratio_ext(margin, opl, f, on, d)?;
                 if ro > r {
                     r = ro;
@@ -97,7 +110,15 @@ pub fn step(ctx: &Ctx, w: &World, ev: &mut Ev) {
         (None, _) => ev.count("twap15_reference_unavailable"),
         _ => {}
     }
-    let lr = match ratio_liq(ctx.preq, pos.margin, f, ctx.pre.vamms[v].spot, d, twap_ref) {
+    // how often the engine's own figures agree with the harness's (reach only)
+    if let (Some(q), Some(en)) = (pq_u(ctx.preq, "out_whole"), pq_field_u(ctx.preq, "pnl_spot", "position_notional")) {
+        ev.count(if q == en { "spot_notional_reference_equals_engine_figure" } else { "spot_notional_reference_differs_from_engine_figure" });
+    }
+    if let (Some(op), Some(en)) = (pq_u(ctx.preq, "underlying"), pq_field_u(ctx.preq, "pnl_oracle", "position_notional")) {
+        let own_on = mul_div(op, pos.size.unsigned_abs(), d).unwrap_or(0);
+        ev.count(if own_on == en { "oracle_notional_reference_equals_engine_figure" } else { "oracle_notional_reference_differs_from_engine_figure" });
+    }
+    let lr = match ratio_liq_own(ctx.preq, pos.margin, f, ctx.pre.vamms[v].spot, d, twap_ref, Some((pos.dir, pos.size.unsigned_abs(), pos.notional))) {
         Some(x) => x,
         None => {
             ev.count("ratio_unavailable");
